@@ -192,6 +192,10 @@ func (f *machoMarkers) PatchSignature(oldHeader []byte, sigSize int64) (newHeade
 	}
 	// allocate patch buffer for signature
 	padding = sigStart - f.codeSize
+	if padding < 0 {
+		err = errors.New("mach-o signature does not follow the end of the image")
+		return
+	}
 	padded := make([]byte, padding+sigSize)
 	sigBuf = padded[padding:]
 	// make room for signature loadcmd if there isn't one already
